@@ -43,7 +43,10 @@ def addData (dest : Bytes) : Option (Bytes × Bytes × Bytes) :=
         | some sp => some (dest, [47] ++ sp ++ [47])
       else some ([46] ++ dest, par ++ [47])
     match r, fileName dest with
-    | some (cpio, dir), some bn => some (cpio, (if dir == [47, 47] then [47] else dir), bn)
+    | some (_, dir), some bn =>
+      let dir := if dir == [47, 47] then [47] else dir
+      -- since fix cbb69e5 the archive entry is named "." ++ dir ++ base name
+      some ([46] ++ dir ++ bn, dir, bn)
     | _, _ => none
 
 structure FileReq where
